@@ -75,12 +75,15 @@ CORPUS = {
     "rej.org.label": [" ORG S", "S NOP"],
     "stack.other": [" PSHS U,Y,X", " PULU S,X"],
     "rej.stack.other": [" PULU U,Y,X"],
+    "rej.registers2": [" PSHS E,F"],
+    "rej.registers3": [" PULU W,V,Q", " NOP"],
+    "rej.two.undefined": [" LDX #NOWHERE+ELSEWHERE", " JMP THIRD"],
 }
 INCLUDED = {"shared.asm": ["GETVAL LDA VALUE", " LDB VALUE+1", " LEAX VALUE,PCR", " RTS"], "other.asm": [" LDA TABLE,X", " LDA 5,X", "OTHER RTS"],
             "outer2.asm": [" NOP", " INCLUDE bad.asm"], "bad.asm": ["GOOD NOP", " FOO 1"], "loop1.asm": [" INCLUDE loop2.asm"],
             "loop2.asm": [" INCLUDE loop1.asm"], "outer3.asm": [" INCLUDE shared2.asm", " NOP"], "shared2.asm": [" LDA #1"]}
 NAMES = sorted(CORPUS)
-HASHSEEDS = ["0", "1", "4242"]
+HASHSEEDS = ["0", "1", "4", "7", "4242"]
 
 
 def observe(lines):
